@@ -32,6 +32,29 @@ impl pgp::ser::Serialize for Raw<'_> {
     }
 }
 
+/// A source that delivers its octets in pieces, optionally flushing the writer in between (what a
+/// caller-written `Serialize` may do): the armor that comes out must not depend on it.
+pub struct Pieces<'a> {
+    pub data: &'a [u8],
+    pub cut: usize,
+    pub flush: bool,
+}
+
+impl pgp::ser::Serialize for Pieces<'_> {
+    fn to_writer<W: std::io::Write>(&self, w: &mut W) -> pgp::errors::Result<()> {
+        let cut = self.cut.min(self.data.len());
+        w.write_all(&self.data[..cut])?;
+        if self.flush {
+            w.flush()?;
+        }
+        w.write_all(&self.data[cut..])?;
+        Ok(())
+    }
+    fn write_len(&self) -> usize {
+        self.data.len()
+    }
+}
+
 pub fn pattern(len: usize, p: u8) -> Vec<u8> {
     match p {
         0 => vec![0u8; len],
@@ -141,6 +164,27 @@ fn run_roundtrip(c: &RtCase) -> Outcome {
     }
     let mut o = Outcome::ok("roundtrip-ok");
     let want = model::armor(&block.to_string(), &map_order(hdrs), &data, c.checksum, b"\n");
+    // the same data handed over in two pieces, with and without a flush in between, at every cut
+    // (short data) / at the cuts around the line and quantum edges
+    if c.pat == 2 && c.block == 0 {
+        let cuts: Vec<usize> = if c.len <= 200 { (0..=c.len).collect() } else { vec![1, 2, 3, 47, 48, 49, 95, 96, 97, c.len / 2, c.len - 1] };
+        for cut in cuts {
+            for flush in [false, true] {
+                let mut w2 = Vec::new();
+                let r = armor::write(&Pieces { data: &data, cut, flush }, block, &mut w2, if hdrs.is_empty() { None } else { Some(&map) }, c.checksum);
+                if r.is_err() || w2 != written {
+                    o.push(
+                        "C10:write:output-depends-on-how-the-source-writes",
+                        format!("len {} hdr {}: data written as {cut} + {} octets{}: {}", c.len, c.hdr, c.len - cut.min(c.len), if flush { " with a flush in between" } else { "" }, if r.is_err() { "error".to_string() } else { format!("{} octets instead of {}", w2.len(), written.len()) }),
+                    );
+                    break;
+                }
+            }
+            if !o.viol.is_empty() {
+                break;
+            }
+        }
+    }
     if written != want {
         // decide which stated sub-property is broken
         let text = String::from_utf8_lossy(&written).to_string();
@@ -675,7 +719,7 @@ pub fn check(ctx: &Ctx) {
     ctx.run_space(
         "roundtrip",
         true,
-        &format!("armor::write -> byte-compare with the model encoder -> Dearmor: every length 0..={maxlen} (+ sparse up to 4096 / large in thorough) x 3 patterns x checksum on/off; all 20 block types x 8 header sets x 8 lengths x checksum"),
+        &format!("armor::write (the source writing at once, in two pieces, and in two pieces with a flush in between at every cut) -> byte-compare with the model encoder -> Dearmor: every length 0..={maxlen} (+ sparse up to 4096 / large in thorough) x 3 patterns x checksum on/off; all 20 block types x 8 header sets x 8 lengths x checksum"),
         rt.into_par_iter(),
         run_roundtrip,
     );
